@@ -473,9 +473,38 @@ class Map(Ty):
 
     def concretize(self, model, term):
         v = model.eval(term, model_completion=True)
-        return {"__map__": str(model.eval(self.dt.dom(v), model_completion=True))[:400],
+        dom = model.eval(self.dt.dom(v), model_completion=True)
+        ent = array_entries(dom)
+        if ent is not None and z3.is_false(ent[0]):
+            keys = [k for k, b in ent[1] if z3.is_true(b)]
+            items = []
+            for k in keys[:32]:
+                items.append([self.key.concretize(model, k),
+                              self.val.concretize(model, z3.Select(self.dt.val(v), k))])
+            return {"__dict__": items}
+        return {"__map__": str(dom)[:400],
                 "val": str(model.eval(self.dt.val(v), model_completion=True))[:400],
                 "size": model.eval(self.dt.size(v), model_completion=True).as_long()}
+
+
+def array_entries(a):
+    """Decode a model value `Store(...Store(K(d), k1, v1)..., kn, vn)` -> (d, [(k, v)]) (last
+    store wins); None if the value has another shape (lambda / as-array)."""
+    stores = []
+    while z3.is_store(a):
+        stores.append((a.arg(1), a.arg(2)))
+        a = a.arg(0)
+    if not z3.is_const_array(a):
+        return None
+    seen = set()
+    out = []
+    for k, v in stores:
+        key = k.get_id()
+        if key in seen:
+            continue
+        seen.add(key)
+        out.append((k, v))
+    return a.arg(0), out
 
 
 def _default_of(sort):
@@ -498,7 +527,11 @@ class SymDict:
         return self._loc.get()
 
     def _k(self, k):
-        return self._ty.key.unwrap(k)
+        kt = self._ty.key.unwrap(k)
+        c = _c()
+        if c.spec_mode == 0 and not z3.is_var(kt):
+            c.note_term(kt)         # keys used by the code are instantiation terms for facts
+        return kt
 
     def _has(self, kt):
         return z3.Select(self._ty.dt.dom(self.term), kt)
@@ -540,6 +573,15 @@ class SymDict:
 
     def get(self, k, default=None):
         kt = self._k(k)
+        vty = self._ty.val
+        if default is not None and vty in (T.Int, T.Real, T.Bool, T.Str):
+            # scalar value and default: one merged term instead of a fork
+            try:
+                dt_ = vty.unwrap(default)
+            except OutOfReach:
+                dt_ = None
+            if dt_ is not None:
+                return vty.wrap(z3.If(self._has(kt), z3.Select(self._ty.dt.val(self.term), kt), dt_))
         if not _c().branch(self._has(kt), site="key"):
             return default
         return self._ty.val.wrap(z3.Select(self._ty.dt.val(self.term), kt), self._valloc(kt))
@@ -608,12 +650,10 @@ class SymDict:
         return self._ordered_keys()
 
     def values(self):
-        ks = self._ordered_keys()
-        return _MapIter(self, ks, "v")
+        return _MapIter(self, None, "v")
 
     def items(self):
-        ks = self._ordered_keys()
-        return _MapIter(self, ks, "kv")
+        return _MapIter(self, None, "kv")
 
     def move_to_end(self, k, last=True):
         if not self._ty.ordered:
@@ -649,8 +689,29 @@ class SymDict:
 
     __hash__ = None
 
+    def keyset(self):
+        """The set of keys as a free-standing SymSet."""
+        self._ty.assume_wf(self.term)
+        st = Set(self._ty.key)
+        return SymSet(Box(st.dt.mk(self._ty.dt.dom(self.term), self._ty.dt.size(self.term))), st)
+
     def __eq__(self, o):
-        raise OutOfReach("== on symbolic dicts")
+        if isinstance(o, dict):
+            o = SymDict(Box(self._ty.unwrap(o)), self._ty)
+        if not isinstance(o, SymDict):
+            return False
+        if str(o._ty.sort()) != str(self._ty.sort()):
+            raise OutOfReach("== on symbolic dicts of different types")
+        dt = self._ty.dt
+        a, b = self.term, o.term
+        k = _c().fresh("eqk", self._ty.key.sort())
+        return mk_bool(z3.And(dt.dom(a) == dt.dom(b),
+                              z3.ForAll([k], z3.Implies(z3.Select(dt.dom(a), k),
+                                                        z3.Select(dt.val(a), k) == z3.Select(dt.val(b), k)))))
+
+    def __ne__(self, o):
+        r = self.__eq__(o)
+        return (not r) if isinstance(r, bool) else ~r
 
     def __repr__(self):
         return f"SymDict({self.term})"
@@ -661,7 +722,13 @@ class SymDict:
 
 class _MapIter:
     def __init__(self, d, ks, mode):
-        self.d, self.ks, self.mode = d, ks, mode
+        self.d, self._ks, self.mode = d, ks, mode
+
+    @property
+    def ks(self):
+        if self._ks is None:
+            self._ks = self.d._ordered_keys()
+        return self._ks
 
     def __iter__(self):
         for k in self.ks:
@@ -706,7 +773,11 @@ class Set(Ty):
 
     def concretize(self, model, term):
         v = model.eval(term, model_completion=True)
-        return {"__set__": str(model.eval(self.dt.dom(v), model_completion=True))[:400],
+        dom = model.eval(self.dt.dom(v), model_completion=True)
+        ent = array_entries(dom)
+        if ent is not None and z3.is_false(ent[0]):
+            return {"__setv__": [self.elem.concretize(model, k) for k, b in ent[1][:32] if z3.is_true(b)]}
+        return {"__set__": str(dom)[:400],
                 "size": model.eval(self.dt.size(v), model_completion=True).as_long()}
 
 
@@ -773,6 +844,83 @@ class SymSet:
 
     def __iter__(self):
         raise OutOfReach("iteration over a symbolic set needs a loop contract")
+
+    # -- algebra (results are free-standing sets; sizes are bounded, not computed)
+    def _other_dom(self, o):
+        if isinstance(o, SymSet):
+            return self._ty.dt.dom(o.term), self._ty.dt.size(o.term)
+        if isinstance(o, (set, frozenset)):
+            t = self._ty.unwrap(o)
+            return self._ty.dt.dom(t), self._ty.dt.size(t)
+        raise OutOfReach(f"set operation with {type(o).__name__}")
+
+    def _mk(self, dom, lo, hi):
+        c = _c()
+        n = c.fresh("setsize", z3.IntSort())
+        c.assume(z3.And(n >= lo, n <= hi, n >= 0))
+        t = self._ty.dt.mk(dom, n)
+        self._ty.assume_wf(t)
+        return SymSet(Box(t), self._ty)
+
+    def __or__(self, o):
+        d2, n2 = self._other_dom(o)
+        d1, n1 = self._ty.dt.dom(self.term), self._ty.dt.size(self.term)
+        self._ty.assume_wf(self.term)
+        return self._mk(z3.SetUnion(d1, d2), z3.If(n1 > n2, n1, n2), n1 + n2)
+
+    __ror__ = __or__
+    union = __or__
+
+    def __and__(self, o):
+        d2, n2 = self._other_dom(o)
+        d1, n1 = self._ty.dt.dom(self.term), self._ty.dt.size(self.term)
+        self._ty.assume_wf(self.term)
+        return self._mk(z3.SetIntersect(d1, d2), z3.IntVal(0), z3.If(n1 < n2, n1, n2))
+
+    intersection = __and__
+
+    def __sub__(self, o):
+        d2, n2 = self._other_dom(o)
+        d1, n1 = self._ty.dt.dom(self.term), self._ty.dt.size(self.term)
+        self._ty.assume_wf(self.term)
+        return self._mk(z3.SetDifference(d1, d2), z3.If(n1 - n2 > 0, n1 - n2, z3.IntVal(0)), n1)
+
+    difference = __sub__
+
+    def __le__(self, o):
+        d2, _ = self._other_dom(o)
+        return mk_bool(z3.IsSubset(self._ty.dt.dom(self.term), d2))
+
+    issubset = __le__
+
+    def __eq__(self, o):
+        if isinstance(o, (SymSet, set, frozenset)):
+            d2, _ = self._other_dom(o)
+            return mk_bool(self._ty.dt.dom(self.term) == d2)
+        return False
+
+    def __ne__(self, o):
+        r = self.__eq__(o)
+        return (not r) if isinstance(r, bool) else ~r
+
+    def update(self, o):
+        r = self | o
+        self._loc.set(r.term)
+
+    def __ior__(self, o):
+        self._loc.set((self | o).term)
+        return self
+
+    def __isub__(self, o):
+        self._loc.set((self - o).term)
+        return self
+
+    def __iand__(self, o):
+        self._loc.set((self & o).term)
+        return self
+
+    difference_update = __isub__
+    intersection_update = __iand__
 
     __hash__ = None
 
